@@ -77,7 +77,7 @@ def cases(tier):
             out.append({'fn': 'run_lifecycle', 'id': f'n{n}/{flaw}', 'params': {'n': n, 'flaw': flaw}})
     out.append({'fn': 'run_shared_io', 'id': 'shared-io', 'params': {}})
     # two attachments per module (out-degree 2): a module reached through paths of different length
-    n2 = 4 if tier == 'thorough' else 3
+    n2 = 3      # (4 modules with two attachments each: 25 cases of up to 375000 graphs x orders - beyond the thorough budget)
     for a in range(n2 + 1):
         for b in range(n2 + 1):
             out.append({'fn': 'run_two_attachments', 'id': f'two-attachments/n{n2}/m0-{a}-{b}', 'params': {'n': n2, 'a0': a, 'b0': b}})
